@@ -161,7 +161,8 @@ def sib_roles(ctx, rule):
             tg = ok2[2][0].args[1 + fidx(ctx, adt, "tag")]
 
         def ix(t):
-            return t.args[1].args[0] if t is not None and t.op == "index" and t.args[1].op == "int" else None
+            from .common import role_id
+            return role_id(t) if t is not None else None
         sib[root2] = (ix(dk2[0]["argv"][0]) if dk2 else None, ix(tg))
     vals = list(sib.values())
     ctx.add(rule, "generate~share_with_local_randomness#same-tag-and-key-derivation", len(vals) == 2 and vals[0] == vals[1] and None not in vals[0],
